@@ -94,3 +94,30 @@ Proof.
   split; [vm_compute; reflexivity|]. split; [vm_compute; reflexivity|].
   apply R_init; intros; reflexivity.
 Qed.
+
+(* ---------------------------------------------------------------- nested calls and creations
+   The same statement for the mini-SEVM extended with CALL / CALLCODE / DELEGATECALL /
+   STATICCALL / CREATE over a symbolic world (Model/SymCalls.v): every leaf -- at any call
+   depth, after any number of sub-frames that returned, reverted or halted, with value
+   transfers and insufficient-balance branches -- whose path constraints a valuation satisfies
+   describes the result of the reference interpreter: end kind, return data, CREATE counter,
+   and a final world (code, storage and transient storage of EVERY account, all balances)
+   that agrees with the symbolic one.  Any oracle; unbounded fuel, depth and program size.
+   (The model has F11 / F20 repaired: see the known findings.) *)
+From HV Require Import Model.SymCalls Proofs.SymCallsSound.
+
+Theorem C01_sound_calls :
+  forall lim special oracle loop rho fuel fr w ctr sg s,
+    R2 rho fr w ctr sg s ->
+    forall l, In l (fst (sexec2 lim special oracle loop fuel fr w ctr sg)) ->
+    sat rho (l2_path l) ->
+    exists n, outcome2 rho (l2_kind l) (exec lim n (inst_frame rho fr) s).
+Proof. exact sexec2_sound. Qed.
+Print Assumptions C01_sound_calls.
+
+(* fuel monotonicity of the reference interpreter (used to compose sub-frame and
+   continuation): a finished execution is not changed by more fuel *)
+Theorem C01_exec_mono :
+  forall lim n e s r, exec lim n e s = r -> r <> RFuel -> forall m, (n <= m)%nat -> exec lim m e s = r.
+Proof. exact Proofs.EvmMono.exec_mono. Qed.
+Print Assumptions C01_exec_mono.
